@@ -2,7 +2,7 @@
    real VM by the K2 correspondence. Parser totality is NOT a theorem (decided by search + the PEG model's
    explicit panic flag in K1). *)
 From Coq Require Import NArith ZArith List Bool String.
-From DS Require Import Model.Value Model.VM Model.CodeWf Proofs.VMSafety.
+From DS Require Import Model.Value Model.VM Model.CodeWf Model.Ast Model.Compile Proofs.VMSafety Proofs.CompileWf.
 Import ListNotations.
 
 (* For byte-code whose operands have the shapes the VM asserts and whose relative jumps never go below
@@ -33,7 +33,21 @@ Proof. exact Proofs.VMSafety.C01_run_keeps_state_good. Qed.
 Theorem C01_initial_state_good : state_good st0.
 Proof. exact init_state_good. Qed.
 
+(* the code_wf hypothesis is DISCHARGED for every program of the AST of Model/Ast.v (all expression and statement
+   constructors, any size): the reference compiler — tied to the real parser instruction by instruction (K4) — only
+   emits operands of the asserted shapes and never a jump below index 0 (the tight case is a top-level `continue`, which
+   lands exactly on index 0), so no compiled program reaches a Go panic site (Proofs/CompileWf.v) *)
+Theorem C01_compile_code_wf : forall p : stmt, code_wf (compile p) = true.
+Proof. exact compile_code_wf. Qed.
+
+Theorem C01_compiled_program_never_panics :
+  forall (p : stmt) E src, ftab_wf (e_ftab E) = true ->
+  forall fuel st, state_good st -> match run fuel E (compile p) src st with OPanic s => s = range_msg | _ => True end.
+Proof. exact compiled_program_never_panics. Qed.
+
 Print Assumptions C01_run_no_panic_partial.
+Print Assumptions C01_compile_code_wf.
+Print Assumptions C01_compiled_program_never_panics.
 Print Assumptions C01_exec_no_panic_partial.
 Print Assumptions C01_run_keeps_state_good.
 Print Assumptions C01_initial_state_good.
